@@ -361,3 +361,13 @@ for _p in ('C07', 'C12'):
     PROPS[_p]['explanation'] += (' ConvolvedFluxes.write: names, fluxes, errors row for row with their units, apertures, central wavelength in micron '
                                  '(read-back through ConvolvedFluxes.read: bounded run).')
 PROPS['C07']['assumptions'] = [x.replace(' / ConvolvedFluxes.write (package directory and FITS I/O)', ' (package directory and FITS I/O); ConvolvedFluxes.write through its own contract') for x in PROPS['C07']['assumptions']]
+
+
+# ---- Models.read dispatch, Extinction table round trip ------------------------------------------------------
+MREAD = MOD + 'read'
+for _p in ('C01', 'C02', 'C10'):
+    PROPS[_p]['e1'] = PROPS[_p]['e1'] + [MREAD]
+PROPS['C10']['assumptions'] = [x.replace('Models.read (dispatch on the package version) and delete_file are assumed at their call sites; ', 'delete_file is assumed at its call site; ') for x in PROPS['C10']['assumptions']]
+PROPS['C01']['explanation'] = PROPS['C01']['explanation'].replace('(Models.read assumed at that call site; its two readers are under contract in C02)', '(Models.read: hands its arguments to the reader of the package format; the two readers are under contract in C02)')
+PROPS['C14']['e1'] = PROPS['C14']['e1'] + [EXTN + 'to_table', EXTN + 'from_table']
+PROPS['C14']['explanation'] += ' to_table / from_table: the table round trip restores both fields (value and unit) for tables in micron/cgs and in Angstrom/SI.'
